@@ -761,7 +761,9 @@ def baseline_owners(r, q, _seen=None):
             continue
         for e in s.events_of("call"):
             f = strip(strip(e["term"])[1])
-            if (head(f) == "glob" and f[1] == q) or (head(f) == "attr" and f[2] == short and fn.cls and r.P.find_method(fn.cls, short) == q):
+            qcls = r.P.functions[q].cls if q in r.P.functions else None
+            if (head(f) == "glob" and f[1] == q) or (head(f) == "attr" and f[2] == short and fn.cls and r.P.find_method(fn.cls, short) == q) \
+                    or (head(f) == "attr" and f[2] == short and qcls and sum(1 for x in r.P.functions if x.rsplit(".", 1)[1] == short and r.P.functions[x].cls) == 1):
                 owners |= baseline_owners(r, fq, seen)
                 break
     return owners or {q}
